@@ -1338,3 +1338,171 @@ package snaps
 //@   ensures [config_pointees] (c.update != nil ==> *c.update == old(*c.update)) && (c.json != nil ==> c.json.Width == old(c.json.Width) && c.json.Indent == old(c.json.Indent) && c.json.SortKeys == old(c.json.SortKeys))
 //@
 // END-GENERATED-MATCH
+
+// ---- Clean (C07, C09, C10, C20) ---------------------------------------------------------------------
+//@ specfun allDigits(b Str) Bool = forall i in 0..len(b): 48 <= b[i] && b[i] <= 57
+//@ specfun isTestHdr(b Str) Bool = len(b) > 0 && prefixof("[Test", b) && b[len(b) - 1] == 93 && indexof(b, " - ", 0) != -1
+//@      && allDigits(substr(b, indexof(b, " - ", 0) + 3, len(b) - 1 - (indexof(b, " - ", 0) + 3)))
+//@ func isNumber(b) returns (r)
+//@   mode str
+//@   assigns nothing
+//@   ensures r == allDigits(b)
+//@   loop 1 invariant 0 <= i && i <= len(b) && (forall k in 0..i: 48 <= b[k] && b[k] <= 57)
+//@
+//@ func getTestID(b) returns (id, ok)
+//@   mode str
+//@   assigns nothing
+//@   ensures ok == isTestHdr(b)
+//@   ensures ok ==> id == substr(b, 1, len(b) - 2) && b == "[" + id + "]"
+//@
+//@ func snapshotOccurrenceFMT(s, i) returns (r)
+//@   mode ctl
+//@   pure
+//@   assigns nothing
+//@   ensures r == s + " - " + itoa(i)
+//@ func standaloneOccurrenceFMT(s, i) returns (r)
+//@   mode ctl
+//@   pure
+//@   assigns nothing
+//@   ensures r == sprintf_d(s, i)
+//@
+//@ func naturalSort(a, b) returns (r)
+//@   mode ctl
+//@   assigns nothing
+//@   ensures (r == 0) == (a == b)
+//@   ensures a != b ==> (naturalLess(a, b) ? r == -1 : r == 1)
+//@
+// A formatter is a pure function; occFmt(f, s, i) is its value. The two formatters of this package:
+//@ axiom occFmt_snapshot: forall s Str, i Int {occFmt(fn.snaps.snapshotOccurrenceFMT, s, i)}: occFmt(fn.snaps.snapshotOccurrenceFMT, s, i) == s + " - " + itoa(i)
+//@ axiom occFmt_standalone: forall s Str, i Int {occFmt(fn.snaps.standaloneOccurrenceFMT, s, i)}: occFmt(fn.snaps.standaloneOccurrenceFMT, s, i) == sprintf_d(s, i)
+//@ func occurrences.formatter(s, i) returns (r)
+//@   nobody
+//@   assigns nothing
+//@   ensures r == occFmt($fn, s, i)
+//@
+//@ func occurrences(tests, count, formatter) returns (r)
+//@   mode ctl
+//@   requires count >= 1 && (forall id Str {tests[id]}: has(tests, id) ==> tests[id] >= 0)
+//@   assigns alloc
+//@   ensures r != nil && fresh(r)
+//@   ensures [covers] forall id Str, k Int {occFmt(formatter, id, k)}: has(tests, id) && 1 <= k && k <= tests[id] / count ==> has(r, occFmt(formatter, id, k))
+//@   ensures [last] forall id Str {tests[id]}: has(tests, id) ==> has(r, occFmt(formatter, id, tests[id] / count))
+//@   loop 1 invariant result != nil && !old(alloc)[result] && (tests != nil ==> old(alloc)[tests]) && count >= 1
+//@   loop 1 invariant forall r0 Ref: old(alloc)[r0] ==> domheap("map[string]int")[r0] == old(domheap("map[string]int"))[r0] && valheap("map[string]int")[r0] == old(valheap("map[string]int"))[r0] && domheap("map[string]struct{}")[r0] == old(domheap("map[string]struct{}"))[r0] && valheap("map[string]struct{}")[r0] == old(valheap("map[string]struct{}"))[r0]
+//@   loop 1 invariant forall id Str, k Int {occFmt(formatter, id, k)}: $visited[id] && 1 <= k && k <= tests[id] / count ==> has(result, occFmt(formatter, id, k))
+//@   loop 1 invariant forall id Str {tests[id]}: $visited[id] ==> has(result, occFmt(formatter, id, tests[id] / count))
+//@   loop 1.1 invariant result != nil && !old(alloc)[result] && (tests != nil ==> old(alloc)[tests]) && count >= 1 && 1 <= i && i <= counter + 1 && counter == tests[testID] / count
+//@   loop 1.1 invariant forall r0 Ref: old(alloc)[r0] ==> domheap("map[string]int")[r0] == old(domheap("map[string]int"))[r0] && valheap("map[string]int")[r0] == old(valheap("map[string]int"))[r0] && domheap("map[string]struct{}")[r0] == old(domheap("map[string]struct{}"))[r0] && valheap("map[string]struct{}")[r0] == old(valheap("map[string]struct{}"))[r0]
+//@   loop 1.1 invariant forall id Str, k Int {occFmt(formatter, id, k)}: $visited_1[id] && 1 <= k && k <= tests[id] / count ==> has(result, occFmt(formatter, id, k))
+//@   loop 1.1 invariant forall id Str {tests[id]}: $visited_1[id] ==> has(result, occFmt(formatter, id, tests[id] / count))
+//@   loop 1.1 invariant forall k Int {occFmt(formatter, testID, k)}: 1 <= k && k < i ==> has(result, occFmt(formatter, testID, k))
+
+// ---- skip tracking (C08) -------------------------------------------------------------------------------
+//@ specfun desc(t Str, s Str) Bool = t == s || prefixof(s + "/", t)
+//@ func (*syncSlice).append(s, elems)
+//@   mode ctl
+//@   requires s != nil && held[s.Mutex] == 0
+//@   assigns s.values
+//@   ensures len(s.values) == old(len(s.values)) + len(elems) && held[s.Mutex] == 0
+//@   ensures forall i in 0..old(len(s.values)): s.values[i] == old(s.values)[i]
+//@   ensures forall j in 0..len(elems): s.values[old(len(s.values)) + j] == elems[j]
+//@
+//@ func trackSkip(t)
+//@   mode ctl
+//@   requires t != nil && skippedTests != nil && held[skippedTests.Mutex] == 0
+//@   assigns nLog[t], lastLog[t], skippedTests.values
+//@   ensures nLog[t] == old(nLog[t]) + 1 && lastLog[t] == box(skippedMsg)
+//@   ensures len(skippedTests.values) == old(len(skippedTests.values)) + 1 && skippedTests.values[old(len(skippedTests.values))] == tname(t)
+//@   ensures forall i in 0..old(len(skippedTests.values)): skippedTests.values[i] == old(skippedTests.values)[i]
+//@   ensures held[skippedTests.Mutex] == 0
+//@
+//@ func Skip(t, args)
+//@   mode ctl
+//@   requires t != nil && skippedTests != nil && held[skippedTests.Mutex] == 0
+//@   assigns nLog[t], lastLog[t], skippedTests.values, nSkip[t]
+//@   ensures nSkip[t] == old(nSkip[t]) + 1 && nLog[t] == old(nLog[t]) + 1
+//@   ensures len(skippedTests.values) == old(len(skippedTests.values)) + 1 && skippedTests.values[old(len(skippedTests.values))] == tname(t)
+//@   ensures forall i in 0..old(len(skippedTests.values)): skippedTests.values[i] == old(skippedTests.values)[i]
+//@ func Skipf(t, format, args)
+//@   mode ctl
+//@   requires t != nil && skippedTests != nil && held[skippedTests.Mutex] == 0
+//@   assigns nLog[t], lastLog[t], skippedTests.values, nSkip[t]
+//@   ensures nSkip[t] == old(nSkip[t]) + 1 && nLog[t] == old(nLog[t]) + 1
+//@   ensures len(skippedTests.values) == old(len(skippedTests.values)) + 1 && skippedTests.values[old(len(skippedTests.values))] == tname(t)
+//@   ensures forall i in 0..old(len(skippedTests.values)): skippedTests.values[i] == old(skippedTests.values)[i]
+//@ func SkipNow(t)
+//@   mode ctl
+//@   requires t != nil && skippedTests != nil && held[skippedTests.Mutex] == 0
+//@   assigns nLog[t], lastLog[t], skippedTests.values, nSkip[t]
+//@   ensures nSkip[t] == old(nSkip[t]) + 1 && nLog[t] == old(nLog[t]) + 1
+//@   ensures len(skippedTests.values) == old(len(skippedTests.values)) + 1 && skippedTests.values[old(len(skippedTests.values))] == tname(t)
+//@   ensures forall i in 0..old(len(skippedTests.values)): skippedTests.values[i] == old(skippedTests.values)[i]
+//@
+//@ func testSkipped(testID, runOnly) returns (r)
+//@   mode str
+//@   requires skippedTests != nil && quiescent
+//@   assigns nothing
+//@   let tn = beforeFirst(testID, " - ")
+//@   ensures [skip_protects] (exists i in 0..len(skippedTests.values): desc(tn, skippedTests.values[i])) ==> r
+//@   ensures [only_skip_or_filter] r ==> (exists i in 0..len(skippedTests.values): desc(tn, skippedTests.values[i])) || !reMatch(runOnly, testID)
+//@   ensures [filter] (forall i in 0..len(skippedTests.values): !desc(tn, skippedTests.values[i])) ==> r == !reMatch(runOnly, testID)
+//@   loop 1 invariant 0 <= $idx && (forall i in 0..$idx: !desc(testName, skippedTests.values[i])) && testName == tn
+//@
+//@ func isFileSkipped(dir, filename, runOnly) returns (r)
+//@   mode ctl
+//@   assigns alloc
+//@   ensures runOnly == "" ==> !r
+
+//@ func examineFiles(registry, registeredStandaloneTests, runOnly, shouldUpdate) returns (obsolete, used)
+//@   mode ctl
+//@   requires quiescent
+//@   assigns fsx, fswrites, stdout, alloc
+//@   let protected = forall p Str {fsx[p]}: (has(registry, p) || has(registeredStandaloneTests, p) || !shouldUpdate || !contains(baseOf(p), ".snap")) ==> fsx[p] == old(fsx)[p]
+//@   ensures [protected] protected
+//@   ensures [content_kept] fsc == old(fsc)
+//@   ensures [report_only] !shouldUpdate ==> fsx == old(fsx) && fswrites == old(fswrites)
+//@   ensures [obsolete_sound] forall k in 0..len(obsolete): !has(registry, obsolete[k]) && !has(registeredStandaloneTests, obsolete[k])
+//@   ensures [used_sound] forall k in 0..len(used): has(registry, used[k])
+//@   let inv = protected && (!shouldUpdate ==> fsx == old(fsx) && fswrites == old(fswrites))
+//@       && (forall k in 0..len(obsolete): !has(registry, obsolete[k]) && !has(registeredStandaloneTests, obsolete[k])) && (forall k in 0..len(used): has(registry, used[k]))
+//@       && (forall r0 Ref: old(alloc)[r0] ==> domheap("map[string]struct{}")[r0] == old(domheap("map[string]struct{}"))[r0] && valheap("map[string]struct{}")[r0] == old(valheap("map[string]struct{}"))[r0])
+//@       && uniqueDirs != nil && !old(alloc)[uniqueDirs] && (registry != nil ==> old(alloc)[registry]) && (registeredStandaloneTests != nil ==> old(alloc)[registeredStandaloneTests])
+//@   loop 1 invariant inv
+//@   loop 2 invariant inv
+//@   loop 3 invariant inv
+//@   loop 3.1 invariant inv
+//@
+//@ func set.Has(s, i) returns (r)
+//@   mode ctl
+//@   pure
+//@   assigns nothing
+//@   ensures r == has(s, i)
+//@
+//@ func examineSnaps(registry, used, runOnly, count, update, sort) returns (obs, err)
+//@   mode lines
+//@   dead ret2
+//@   requires quiescent && count >= 1 && skippedTests != nil
+//@   requires forall p Str, id Str {registry[p][id]}: has(registry, p) && has(registry[p], id) ==> registry[p][id] >= 0
+//@   assigns fsc, fswrites, alloc, stdout
+//@   ensures [noop] !update && !sort ==> fswrites == old(fswrites) && fsc == old(fsc)
+//@   ensures [only_used] forall p Str {fsc[p]}: (forall k in 0..len(used): used[k] != p) ==> fsc[p] == old(fsc)[p]
+//@   let mapsKept = forall r0 Ref: old(alloc)[r0] ==> domheap("map[string]struct{}")[r0] == old(domheap("map[string]struct{}"))[r0] && valheap("map[string]struct{}")[r0] == old(valheap("map[string]struct{}"))[r0]
+//@         && domheap("map[string]string")[r0] == old(domheap("map[string]string"))[r0] && valheap("map[string]string")[r0] == old(valheap("map[string]string"))[r0]
+//@         && domheap("map[string]int")[r0] == old(domheap("map[string]int"))[r0] && valheap("map[string]int")[r0] == old(valheap("map[string]int"))[r0]
+//@         && domheap("map[string]map[string]int")[r0] == old(domheap("map[string]map[string]int"))[r0] && valheap("map[string]map[string]int")[r0] == old(valheap("map[string]map[string]int"))[r0]
+//@         && wbuf[r0] == old(wbuf)[r0] && scpos[r0] == old(scpos)[r0] && foff[r0] == old(foff)[r0]
+//@   let fsxKept = fsx == old(fsx)
+//@   let gate = fsxKept && (!update && !sort ==> fswrites == old(fswrites) && fsc == old(fsc)) && (forall p Str {fsc[p]}: (forall k in 0..len(used): used[k] != p) ==> fsc[p] == old(fsc)[p])
+//@   let locals = tests != nil && !old(alloc)[tests] && data != nil && !old(alloc)[data] && (registry != nil ==> old(alloc)[registry])
+//@   let kept = !update ==> (forall k in 0..len(testIDs): has(tests, testIDs[k]))
+//@   loop 1 invariant mapsKept && gate && locals && 0 <= $idx_1 && len(testIDs) == 0
+//@   loop 1.1 invariant mapsKept && gate && locals && 0 <= $idx_1 && $idx_1 < len(used) && snapPath == used[$idx_1]
+//@   loop 1.1 invariant f != nil && !old(alloc)[f] && fpath[f] == snapPath && s != nil && !old(alloc)[s] && s != f && s != data && f != data && scunb[s] && scsrc[s] == fsc[snapPath] && 0 <= scpos[s] && scpos[s] <= ntok(scsrc[s])
+//@   loop 1.1 invariant registeredTests != nil
+//@   loop 1.1 invariant [no_drop_without_update] kept || scpos[s] == ntok(scsrc[s])
+//@   loop 1.1.1 invariant mapsKept && gate && locals && 0 <= $idx_1 && $idx_1 < len(used) && snapPath == used[$idx_1]
+//@   loop 1.1.1 invariant f != nil && !old(alloc)[f] && fpath[f] == snapPath && s != nil && !old(alloc)[s] && s != f && s != data && f != data && scunb[s] && scsrc[s] == fsc[snapPath] && 0 <= scpos[s] && scpos[s] <= ntok(scsrc[s])
+//@   loop 1.1.1 invariant registeredTests != nil && len(testIDs) >= 1 && testIDs[len(testIDs) - 1] == testID
+//@   loop 1.1.1 invariant !update ==> (forall k in 0..len(testIDs) - 1: has(tests, testIDs[k]))
+//@   loop 1.2 invariant mapsKept && fsxKept && locals && 0 <= $idx_1 && $idx_1 < len(used) && snapPath == used[$idx_1] && f != nil && !old(alloc)[f] && fpath[f] == snapPath && f != data
+//@   loop 1.2 invariant (update || sort) && (forall p Str {fsc[p]}: (forall k in 0..len(used): used[k] != p) ==> fsc[p] == old(fsc)[p])
